@@ -18,6 +18,17 @@ Second == /\ Len(hist) = 2
                 /\ PrintT(<<"T", hist[1], hist[2], n, s'.rem, IntBlocks(s')>>)
 Next == First \/ Second
 Spec == Init /\ [][Next]_<<s, hist>>
+\* the typed transcription of the step function used for the Apalache inductive proof (BlockIntInd.tla, PP = 1012)
+\* is the same function: checked on every behaviour enumerated here (meaningful when P = 1012, T = 2)
+A == INSTANCE BlockIntInd WITH data <- s.d, rem <- s.rem, flen <- s.flen
+ApaAgrees ==
+    LET w0 == <<0, P, 0>>
+        step(w, n) == A!ApaWrite(w[1], w[2], w[3], n)
+        w1 == IF Len(hist) >= 2
+              THEN (IF hist[2] = 0 THEN step(w0, hist[1]) ELSE step(step(w0, hist[1] \div 2), hist[1] - hist[1] \div 2))
+              ELSE w0
+        w2 == IF Len(hist) = 3 THEN step(w1, hist[3]) ELSE w1
+    IN  <<s.d, s.rem, s.flen>> = w2
 \* design-level properties of the skeleton, at real size
 RemRange == s.rem \in 0..P
 \* the file holds whole blocks plus the open block; its payload length is d
